@@ -422,6 +422,47 @@ class Program:
             if out: return out
         return [(f, base, off)]
 
+    def writes_through(self, fname, k):
+        """may function fname store through (a cast / constant or variable offset of) its pointer parameter k - itself, or by handing it on? (stores through pointers
+        LOADED from the pointee do not count: they change what a context struct points to, not the struct)"""
+        if getattr(self, '_wt', None) is None:
+            wt = set(); changed = True
+            def root_param(f, v):
+                r, _ = strip_casts(f, v)
+                seen = set()
+                while r['k'] == 'i' and r['id'] not in seen:
+                    seen.add(r['id']); i = f.insts[r['id']]
+                    if i.op in ('phi', 'select'): return None      # (conservative below)
+                    break
+                return r['n'] if r['k'] == 'a' else None
+            while changed:
+                changed = False
+                for f in self.defined.values():
+                    for i in f.all_insts():
+                        hit = []
+                        if i.op == 'store':
+                            n = root_param(f, i.ops[1])
+                            if n is not None: hit.append(n)
+                        elif i.op in ('phi', 'select'):
+                            for v in ([v for v, _ in i.d['incoming']] if i.op == 'phi' else i.ops[1:]):
+                                n = root_param(f, v)
+                                if n is not None: hit.append(n)      # a parameter merged with other pointers: assume written
+                        elif i.op == 'call' and not self.is_dbg(i):
+                            t = self.call_target(i)
+                            for kk, a in enumerate(i.ops):
+                                n = root_param(f, a)
+                                if n is None: continue
+                                if t[0] == 'direct' and t[1] in self.defined:
+                                    if (t[1], kk) in wt: hit.append(n)
+                                elif t[0] == 'direct' and (t[1].startswith('llvm.memcpy') or t[1].startswith('llvm.memmove') or t[1].startswith('llvm.memset')):
+                                    if kk == 0: hit.append(n)
+                                elif t[0] == 'direct' and t[1].startswith('llvm.'): pass
+                                else: hit.append(n)
+                        for n in hit:
+                            if (f.name, n) not in wt: wt.add((f.name, n)); changed = True
+            self._wt = wt
+        return (fname, k) in self._wt
+
     def role_fn(self, name, kind):
         """the Role of function `name` for this kind, or None"""
         for r in self.roles(kind):
@@ -511,14 +552,80 @@ class PointsTo:
         self.bsearch = []   # (fn, inst)
         self.depcalls = []  # (fn, inst): calls through the dependency table (library-defined defaults are bound like indirect callees)
         self.keys = collections.defaultdict(set)    # object -> content keys in use
+        self.interior = None      # pass 2: nodes that may hold a pointer into the middle of an object (None during pass 1: every non-syntactic root is treated as such)
         self._build()
         self._solve()
+        # pass 2: with the (over-approximate) solution of pass 1, find the pointer values that can only be object bases; an access `value + constant` through such a value
+        # touches exactly that byte offset of its object, so contents reached through helper parameters and loaded pointers (context structs) stay field-keyed
+        inter = self._interior()
+        self.pts = collections.defaultdict(set); self.copy = collections.defaultdict(set)
+        self.loads = []; self.stores = []; self.memcpys = []; self.icalls = []; self.bsearch = []; self.depcalls = []
+        self.keys = collections.defaultdict(set)
+        self.interior = inter
+        self._build()
+        self._solve()
+
+    def _interior(self):
+        """nodes / object contents that may hold an interior pointer (fixpoint over the pass-1 solution)"""
+        P = self.prog
+        flag = set(n for n in self.copy if n[0] == 'addri')          # nodes
+        cflag = set()         # objects one of whose cells may hold an interior pointer
+        for f in P.defined.values():
+            for i in f.all_insts():
+                if i.op == 'getelementptr' and (i.d['var_steps'] or i.d['const_off'] != 0): flag.add(('v', f.name, i.id))
+                elif i.op in ('inttoptr',): flag.add(('v', f.name, i.id))
+                elif i.op == 'call' and not P.is_dbg(i):
+                    t = P.call_target(i)
+                    if t[0] == 'direct' and t[1] == 'bsearch': flag.add(('v', f.name, i.id))
+                    if t[0] == 'direct' and t[1] not in P.defined and not (t[1].startswith('llvm.memcpy') or t[1].startswith('llvm.memmove') or t[1] in ('memcpy', 'memmove', 'malloc', 'calloc')):
+                        flag.add(('v', f.name, i.id))
+        for g in P.globals.values():
+            def has_off(tree):
+                k = tree['k']
+                if k == 'gref': return bool(tree.get('off'))
+                if k == 'struct': return any(has_off(x['v']) for x in tree['fields'])
+                if k == 'array': return any(has_off(e) for e in tree['elems'])
+                return k not in ('fref', 'int', 'zero', 'str', 'bytes', 'null', 'undef')
+            if 'init' in g and has_off(g['init']): cflag.add(('global', g['name']))
+        # 'ext' objects hold unknown caller data
+        for o in list(self.keys):
+            if o[0] in ('ext', 'extdeep'): cflag.add(o)
+        changed = True
+        while changed:
+            changed = False
+            wl = [n for n in flag if n in self.copy]
+            while wl:
+                s_ = wl.pop()
+                for d in self.copy[s_]:
+                    if d not in flag:
+                        flag.add(d); changed = True
+                        if d in self.copy: wl.append(d)
+            for dst, a, key in self.loads:
+                if dst not in flag and any(o in cflag for o in self.pts.get(a, ())):
+                    flag.add(dst); changed = True
+            for a, s_, key in self.stores:
+                if s_ in flag or s_[0] == 'addri':
+                    for o in self.pts.get(a, ()):
+                        if o not in cflag: cflag.add(o); changed = True
+            for d, s_, dk, sk in self.memcpys:
+                if any(o in cflag for o in self.pts.get(s_, ())):
+                    for o in self.pts.get(d, ()):
+                        if o not in cflag: cflag.add(o); changed = True
+        return flag
+
+    def is_base(self, fn, v):
+        """the pointer value can only be the base address of the objects it may point to"""
+        n = self.node(fn, v)
+        if n is None: return False
+        if n[0] == 'addr': return True
+        if n[0] in ('ce', 'addri'): return False
+        return self.interior is not None and n not in self.interior
 
     def node(self, fn, v):
         k = v['k']
         if k == 'i': return ('v', fn.name, v['id'])
         if k == 'a': return ('p', fn.name, v['n'])
-        if k == 'g': return ('addr', ('global', v['name']))
+        if k == 'g': return ('addri' if v.get('off') else 'addr', ('global', v['name']))      # ('addri': the address of something inside the global)
         if k == 'f': return ('addr', ('func', v['name']))
         if k == 'ce':
             # constant expression: union of operand nodes via a fresh node
@@ -618,7 +725,7 @@ class PointsTo:
                         if c: self.icalls.append((f, i, c))
         # address-of pseudo nodes
         for src in list(self.copy.keys()):
-            if src[0] == 'addr':
+            if src[0] in ('addr', 'addri'):
                 self.pts[src].add(src[1])
 
     def _bind(self, f, i, cal):
@@ -644,7 +751,7 @@ class PointsTo:
         while changed:
             changed = False
             for src in list(self.copy.keys()):
-                if src[0] == 'addr' and src[1] not in self.pts[src]:
+                if src[0] in ('addr', 'addri') and src[1] not in self.pts[src]:
                     self.pts[src].add(src[1]); changed = True
             # copy edges to fixpoint
             wl = list(self.copy.keys())
@@ -663,7 +770,7 @@ class PointsTo:
                     else:
                         if addall(dst, self.pts.get(('content', o, key), set()) | self.pts.get(('content', o, '*'), set())): changed = True
             for a, s, key in self.stores:
-                ps = {s[1]} if s[0] == 'addr' else self.pts.get(s)      # (the address of a function / global stored directly)
+                ps = {s[1]} if s[0] in ('addr', 'addri') else self.pts.get(s)      # (the address of a function / global stored directly)
                 if not ps: continue
                 for o in list(self.pts.get(a, ())):
                     self.keys[o].add(key)
@@ -700,7 +807,7 @@ class PointsTo:
     def of(self, fn, v):
         n = self.node(fn, v)
         if n is None: return set()
-        if n[0] in ('addr',): return {n[1]}
+        if n[0] in ('addr', 'addri'): return {n[1]}
         if n[0] == 'ce':
             # resolve on demand
             out = set()
@@ -729,6 +836,9 @@ class PointsTo:
             if f.params[r['n']].get('byval'): return off
         elif r['k'] == 'g':
             return off + r.get('off', 0)
+        if self.interior is not None and r['k'] in ('i', 'a'):
+            n = self.node(f, r)
+            if n is not None and n not in self.interior: return off
         return '*'
 
 
